@@ -34,10 +34,11 @@ Sups == {<< >>, <<"rank">>, <<"select">>, <<"select_zero">>, <<"rank", "select">
 
 Scalars == {U({}), U(All64), [t |-> "usize", v |-> 5], [t |-> "pair", a |-> {0}, b |-> {63, 1}]}
 Vectors == {VecU(0), VecU(1), VecU(3), VecP(0), VecP(2)}
-ByteVecs == {By(0), By(1), By(7), By(8), By(9), By(17), Str(<< >>), Str(<<97>>), Str(<<97, 195, 177>>), Str(<<104, 101, 108, 108, 111, 32, 119, 111>>)}
+ByteVecs == {By(0), By(1), By(7), By(8), By(9), By(17), Str(<< >>), Str(<<97>>), Str(<<97, 195, 177>>), Str(<<104, 101, 108, 108, 111, 32, 119, 111>>),
+             Str(<<195, 169, 195, 169, 195, 169, 195, 169, 195, 169>>)}      \* five two-byte characters: 10 bytes, 2 elements
 Options == {NoneOf("vec_u64"), Some(VecU(2)), Some(By(3)), NoneOf("bytes"), Some(Some(By(9))), Some(NoneOf("bytes")), NoneOf("some"),
             Some(VecU(0)), Some(By(0)), Some(Str(<< >>)), Some(VecP(0)), Some(Raw(0, {})), Some(IntV(1, << >>)),
-            Some(Raw(65, {0, 64})), Some(IntV(7, <<{0, 6}, {1}>>)), NoneOf("raw"), NoneOf("int"), Some(Str(<<97, 98>>)), NoneOf("string"), Some(VecP(1)), NoneOf("vec_pair")}
+            Some(Raw(65, {0, 64})), Some(IntV(7, <<{0, 6}, {1}>>)), NoneOf("raw"), NoneOf("int"), Some(Str(<<97, 98>>)), Some(Str(<<195, 169, 195, 169, 195, 169, 195, 169, 195, 169>>)), NoneOf("string"), Some(VecP(1)), NoneOf("vec_pair")}
 Raws == {Raw(0, {}), Raw(1, {0}), Raw(63, {0, 62}), Raw(64, {63}), Raw(65, {0, 64}), Raw(130, {1, 64, 129})}
 Ints == {IntV(1, << >>), IntV(64, << >>), IntV(1, <<{0}, {}, {0}>>), IntV(7, <<{0, 6}, {1}>>), IntV(64, <<All64, {}>>), IntV(13, <<{12}, {0}, {5}, {1, 2}, {12, 0}>>)}
 BVs == {BV(0, {}, << >>)} \cup {BV(3, {1}, s) : s \in Sups} \cup {BV(65, {0, 63, 64}, s) : s \in {<< >>, <<"rank", "select", "select_zero">>}}
